@@ -99,4 +99,17 @@ def run (c : Conf) (align : Nat) (s : St) (input : Bytes) : St × Bytes × List 
 termination_by input.length
 decreasing_by simp only [List.length_drop]; omega
 
+/-- sequencing of one step (state, actions) with the rest of a run (state, unconsumed bytes, actions) -/
+def seqRun (r : St × List Action) (t : St × Bytes × List Action) : St × Bytes × List Action :=
+  (t.1, t.2.1, r.2 ++ t.2.2)
+
+/-- The same input arriving in pieces: after every piece the machine runs as far as it can and the
+    reader keeps the unconsumed bytes. -/
+def runChunks (c : Conf) (align : Nat) : St → Bytes → List Bytes → St × Bytes × List Action
+  | s, pending, [] => (s, pending, [])
+  | s, pending, ch :: chs =>
+    let r := run c align s (pending ++ ch)
+    let t := runChunks c align r.1 r.2.1 chs
+    (t.1, t.2.1, r.2.2 ++ t.2.2)
+
 end Cjet.Ws
